@@ -203,6 +203,8 @@ class Check:
             else (bl.get(self.prop) if self.tier == "quick" else None)
         ids = sorted(o["id"] for o in self.obls)
         missing = []
+        if os.environ.get("PYVC_WRITE_BASELINE") == "1":
+            base = None
         if base is not None:
             missing = sorted(set(base) - set(ids))
         n_obl = len(self.obls)
